@@ -141,8 +141,9 @@ fn apply(i: &mut Inst, op: DOp) -> String {
         }
     });
     let trace = take_trace();
+    let reply_errs = take_reply_errs();
     match line {
-        Ok(l) => format!("{:?}: {} trace={}", op, l, hash64(&trace, 3)),
+        Ok(l) => format!("{:?}: {} trace={} reply_error_texts={}", op, l, hash64(&trace, 3), if reply_errs.is_empty() { "-".to_string() } else { format!("{:016x}/{}", hash64(&reply_errs, 6), reply_errs.iter().map(|e| e.len()).sum::<usize>()) }),
         Err(p) => format!("{:?}: PANIC {}", op, p),
     }
 }
@@ -373,6 +374,31 @@ pub fn run_c19(ctx: &Ctx) -> i32 {
         Some(d) => ctx.violation("c19:second-process-different-digest", json!({"this_process": mine, "second_process": d})),
         None => machinery_error("second process printed no digest"),
     }
+    // (c') environment and call stack: a second process with RUST_BACKTRACE=1 (this one runs with 0)
+    let (eh, direct, deep) = env_transcripts();
+    let exe = std::env::current_exe().unwrap();
+    let child = std::process::Command::new(exe).arg("C19-env-transcripts").arg(ctx.tier.name()).output();
+    let theirs: Option<Value> = match child {
+        Ok(o) => String::from_utf8_lossy(&o.stdout).lines().find_map(|l| l.strip_prefix("ENVTRANSCRIPTS ").and_then(|s| serde_json::from_str(s.trim()).ok())),
+        Err(e) => machinery_error(&format!("cannot spawn second process: {}", e)),
+    };
+    let Some(theirs) = theirs else { machinery_error("second process printed no transcripts") };
+    let conv = |v: &Value| -> Vec<Vec<String>> { serde_json::from_value(v.clone()).unwrap_or_default() };
+    let (t_direct, t_deep) = (conv(&theirs["direct"]), conv(&theirs["deep"]));
+    if t_direct.len() != eh.len() || t_deep.len() != eh.len() {
+        machinery_error("second process printed a different number of transcripts");
+    }
+    for (i, h) in eh.iter().enumerate() {
+        if direct[i] != deep[i] {
+            ctx.violation("c19:depends-on-call-stack", json!({"history": format!("{:?}", h), "environment": "RUST_BACKTRACE=0", "called_directly": direct[i], "called_from_another_thread_and_depth": deep[i]}));
+        }
+        if t_direct[i] != t_deep[i] {
+            ctx.violation("c19:depends-on-call-stack:RUST_BACKTRACE=1", json!({"history": format!("{:?}", h), "environment": "RUST_BACKTRACE=1", "called_directly": t_direct[i], "called_from_another_thread_and_depth": t_deep[i], "note": "reply_error_texts=<hash>/<total length> is the error text handed to reply entry points"}));
+        }
+        if direct[i] != t_direct[i] {
+            ctx.violation("c19:depends-on-environment:RUST_BACKTRACE", json!({"history": format!("{:?}", h), "with RUST_BACKTRACE=0": direct[i], "with RUST_BACKTRACE=1": t_direct[i], "note": "reply_error_texts=<hash>/<total length> is the error text handed to reply entry points"}));
+        }
+    }
     // (d) replay validation of an explicit-state exploration: states reached through snapshot
     // restore must equal the states reached by replaying their histories on one App
     let (regcov, _) = crate::reg::explore_registry(ctx, ctx.tier.pick(3, 4));
@@ -383,16 +409,46 @@ pub fn run_c19(ctx: &Ctx) -> i32 {
         "traces_validated_against_impl": out.histories + out.interleaved_runs,
         "evaluations": out.histories + out.interleaved_runs,
         "distinct_nontrivial": out.distinct_transcripts,
-        "rule": "(a) every history over the operation alphabet up to the length bound, run on two independently built Apps, transcripts (results, events, data, code ids, addresses, checksums, invocation traces, final raw dump) compared; (b) every ordered pair of shorter histories on two Apps in one thread under every interleaving, each transcript compared with its solo transcript; (0) the same with a second, differently configured App (other bonded denomination, unbonding time, rate, commission, balances): solo transcripts of both configurations, and every pair of short histories under every interleaving and both construction orders; (c) digest of everything recomputed in a second OS process with 3 worker threads, which uses the two configurations in the opposite order; distinct_nontrivial = distinct transcripts",
+        "rule": "(a) every history over the operation alphabet up to the length bound, run on two independently built Apps, transcripts (results, events, data, code ids, addresses, checksums, invocation traces, final raw dump) compared; (b) every ordered pair of shorter histories on two Apps in one thread under every interleaving, each transcript compared with its solo transcript; (0) the same with a second, differently configured App (other bonded denomination, unbonding time, rate, commission, balances): solo transcripts of both configurations, and every pair of short histories under every interleaving and both construction orders; (c') histories with caught failures on one thread, directly and from another thread under extra stack frames, in this process (RUST_BACKTRACE=0) and in a second one with RUST_BACKTRACE=1: all four transcripts equal (the transcript includes the error text handed to reply entry points); (c) digest of everything recomputed in a second OS process with 3 worker threads, which uses the two configurations in the opposite order; distinct_nontrivial = distinct transcripts",
         "exhaustive": true,
         "histories": out.histories, "history_pairs": out.pairs, "interleaved_runs": out.interleaved_runs,
-        "digest": mine, "digest_second_process": other,
+        "digest": mine, "digest_second_process": other, "environment_histories": eh.len(),
         "registry_exploration_replayed": {"states": regcov["states"], "replays": regcov["traces_validated_against_impl"], "mismatches": regcov["replay_mismatches (hidden state; reported by C19)"]},
         "alphabet": ALL.iter().map(|o| format!("{:?}", o)).collect::<Vec<_>>(),
         "caps_hit": [],
         "samples": [{"history": format!("{:?}", h), "transcript": solo(&h)}],
     });
     ctx.finish(coverage, vec!["operations outside the alphabet are not covered; wall-clock dependence would only show if it changed an observable within one run".into()])
+}
+
+/// Transcripts of a few histories with caught failures, computed on one thread: directly, and
+/// from a freshly spawned thread below some extra stack frames.
+pub fn env_transcripts() -> (Vec<Vec<DOp>>, Vec<Vec<String>>, Vec<Vec<String>>) {
+    #[inline(never)]
+    fn deeper(h: &[DOp], n: u32) -> Vec<String> {
+        if n == 0 {
+            solo(h)
+        } else {
+            let r = deeper(h, n - 1);
+            std::hint::black_box(r)
+        }
+    }
+    set_watch(Watch::default());
+    let hs = histories(&[DOp::Inst, DOp::ExecCaught, DOp::ExecFail, DOp::Block], 3);
+    let direct: Vec<Vec<String>> = hs.iter().map(|h| solo(h)).collect();
+    let hs2 = hs.clone();
+    let deep: Vec<Vec<String>> = std::thread::spawn(move || {
+        set_watch(Watch::default());
+        hs2.iter().map(|h| deeper(h, 5)).collect()
+    })
+    .join()
+    .unwrap();
+    (hs, direct, deep)
+}
+
+pub fn print_env_transcripts() {
+    let (_, direct, deep) = env_transcripts();
+    println!("ENVTRANSCRIPTS {}", serde_json::to_string(&json!({"direct": direct, "deep": deep})).unwrap());
 }
 
 pub fn print_digest(tier: Tier) {
